@@ -412,6 +412,17 @@ def run(ctx):
             except Exception as exc:
                 if type(exc).__name__ not in ('UnableToParse', 'CalcError', 'InvalidInput') and not isinstance(exc, __import__('mitxgraders').exceptions.StudentFacingError):
                     ctx.violation('unexpected error class for a non-ASCII digit/letter', {'s': s2, 'family': 'lookalike'}, impl=type(exc).__name__)
+    # (C') exponent towers with signs, against values written out by hand (right-associative; a sign belongs to the WHOLE remaining tower:
+    # a^-b^c = a^(-(b^c)); it does not leak to other levels). Irrational results are compared as floats.
+    towers = [('2^3^-2', 2 ** (3 ** -2)), ('2^-3^2', 2 ** -(3 ** 2)), ('2^3^-2^2', 2 ** (3 ** -(2 ** 2))), ('16^2^-1', 16 ** (2 ** -1)), ('2^-2^-1', 2 ** -(2 ** -1)),
+              ('2^-2^2', 2 ** -(2 ** 2)), ('3^2^-1^5', 3 ** (2 ** -(1 ** 5))), ('2^2^2^-1', 2 ** (2 ** (2 ** -1))), ('4^-2^-1^3', 4 ** -(2 ** -(1 ** 3))), ('10^-1^-2', 10 ** -(1 ** -2)),
+              ('x^y^-z', 2 ** (3 ** -2.5)), ('x^-y^z', 2 ** -(3 ** 2.5)), ('-2^2', -(2 ** 2)), ('-2^-2', -(2 ** -2)), ('2^-x^-1', 2 ** -(2 ** -1)), ('(0-2)^2^-1*0 + 2^3^-1', 2 ** (3 ** -1))]
+    for expr, wantf in towers:
+        got = py_eval(expr)
+        case = {'s': expr, 'kind': 'tower'}
+        ctx.case(dict(case, value=repr(got)), nontrivial_key=('tower', expr), kind='tower')
+        if got[0] != 'val' or abs(complex(got[1]) - wantf) > 1e-12 * max(1.0, abs(wantf)):
+            ctx.violation('an exponent tower with signs evaluates to %r, mathematics gives %r' % (got, wantf), case, impl=repr(got), expected=repr(wantf))
     # (D'') overflow with allow_inf=True: whatever is returned for a value too large for a float has the right SIGN (or an overflow error is raised)
     from mitxgraders.helpers.calc import evaluator as _ev
     from mitxgraders import NumericalGrader as _NG
